@@ -292,7 +292,7 @@ func (g *jgen) str(sb *strings.Builder) {
 		case 1:
 			fmt.Fprintf(sb, "\\u%04x", []int{0x41, 0xe9, 0x20ac, 0xd83d, 0xde00, 0x0}[g.r.Intn(6)])
 		case 2:
-			sb.WriteString([]string{"é", "€", "😀", "\x80"}[g.r.Intn(4)])
+			sb.WriteString([]string{"é", "€", "😀", "\x80", "\ufeff", "\ufeffab", "\xef\xbb"}[g.r.Intn(7)])
 		default:
 			c := byte(0x20 + g.r.Intn(0x5f))
 			if c == '"' || c == '\\' {
